@@ -91,6 +91,12 @@ def project(mol) -> dict:
 NOTAB = {"cols": [], "rows": []}
 
 
+class GroupList(list):
+    """Groups of the first pass; `.second` holds the groups of a second pass over the same grouping object."""
+
+    second: list | None = None
+
+
 def _pred(p):
     c = pl.col(p["col"])
     ref = p["c"]
@@ -114,7 +120,7 @@ def execute(op: dict, A, B):
     from acryo import Molecules
 
     name = op["name"]
-    groups = []
+    groups = GroupList()
     res = None
     err = ""
     try:
@@ -151,18 +157,31 @@ def execute(op: dict, A, B):
             res = A.drop_features(op["col"])
         elif name == "group_by":
             real = []
-            for key, mol in A.group_by(op["col"]):
+            grp = A.group_by(op["col"])
+            for key, mol in grp:
                 groups.append({"key": _val_to_spec(op["col"], key), "tab": project(mol)})
                 real.append(mol)
             res = Molecules.concat(real) if real else A.subset(slice(0, 0))
+            # the caller edits the groups it was handed IN PLACE, then walks over the same grouping again: the second pass must
+            # still deliver the rows of the receiver
+            for mol in real:
+                mol.translate([500.0, 0.0, 0.0], copy=False)
+            groups.second = [{"key": _val_to_spec(op["col"], key), "tab": project(mol)} for key, mol in grp]
         elif name == "cutby":
             bins = [b + 0.5 if op["col"] == "v" else float(b) for b in op["bins"]]
             real = []
-            for edges, mol in A.cutby(op["col"], bins):
-                b = next((i + 1 for i in range(len(bins) - 1) if abs(bins[i] - edges.gt) < 1e-6 and abs(bins[i + 1] - edges.le) < 1e-6), -1)
-                groups.append({"bin": b, "tab": project(mol)})
+            cut = A.cutby(op["col"], bins)
+
+            def binof(edges):
+                return next((i + 1 for i in range(len(bins) - 1) if abs(bins[i] - edges.gt) < 1e-6 and abs(bins[i + 1] - edges.le) < 1e-6), -1)
+
+            for edges, mol in cut:
+                groups.append({"bin": binof(edges), "tab": project(mol)})
                 real.append(mol)
             res = Molecules.concat(real) if real else A.subset(slice(0, 0))
+            for mol in real:
+                mol.translate([500.0, 0.0, 0.0], copy=False)
+            groups.second = [{"bin": binof(edges), "tab": project(mol)} for edges, mol in cut]
         elif name == "reject":
             _reject_probe(op["kind"], A, B)
         else:
@@ -170,7 +189,7 @@ def execute(op: dict, A, B):
     except Exception as e:  # observation, not a crash
         err = type(e).__name__
         res = None
-        groups = []
+        groups = GroupList()
     return res, err, groups
 
 
